@@ -7,6 +7,9 @@
 //!   (`pct` / `rand` force that policy for every run instead of the 2:1 mix; `results` adds a
 //!    `results t0=[..] t1=[..]` line (API results of the traced run) right after the result line;
 //!    `oneline` joins all output lines of the scenario with ` ;; ` into one line;
+//!    `rr<k>`: the first run starts with a round-robin prefix in which every thread, in scenario order,
+//!    executes k primitive events before the seeded policy takes over (forces "all threads pass their
+//!    check before any of them claims" races);
 //!    `wide`: payload ids are (producer index + 1) * 1000 + seq instead of * 100, for programs
 //!    with up to 999 sends per producer (at most 3 producers: ids stay below MAXID))
 //! thread ops: s (send) ts (try_send) r (recv) tr (try_recv) rt (recv_timeout 20us)
@@ -343,6 +346,7 @@ struct Scenario {
   show_results: bool,
   oneline: bool,
   idbase: u64,
+  rr: usize,
   threads: Vec<ThreadSpec>,
 }
 
@@ -367,6 +371,10 @@ fn parse(line: &str) -> Scenario {
     show_results: head[4.min(head.len())..].contains(&"results"),
     oneline: head[4.min(head.len())..].contains(&"oneline"),
     idbase: if head[4.min(head.len())..].contains(&"wide") { 1000 } else { 100 },
+    rr: head[4.min(head.len())..]
+      .iter()
+      .find_map(|t| t.strip_prefix("rr").and_then(|k| k.parse::<usize>().ok()))
+      .unwrap_or(0),
     threads,
   }
 }
@@ -661,7 +669,17 @@ fn main() {
     for i in 0..sc.runs {
       let seed = sc.seed.wrapping_mul(1_000_003).wrapping_add(i as u64);
       let pct = sc.force.unwrap_or(i % 3 == 2);
-      let policy = if pct { Policy::Pct(seed, 3) } else { Policy::Random(seed) };
+      let policy = if sc.rr > 0 {
+        let mut list = Vec::new();
+        for t in 0..sc.threads.len() {
+          list.extend(std::iter::repeat(t).take(sc.rr));
+        }
+        Policy::Replay(list, seed)
+      } else if pct {
+        Policy::Pct(seed, 3)
+      } else {
+        Policy::Random(seed)
+      };
       let r = run_once(&sc, policy, sc.trace || i == 0);
       steps += r.steps;
       events += r.events;
